@@ -1,5 +1,5 @@
 # C01 — arbitrary file bytes never cause memory errors or undefined behaviour.
-import os, sys, json, tempfile, shutil
+import struct, os, sys, json, tempfile, shutil
 from concurrent.futures import ThreadPoolExecutor
 import vcommon as V
 sys.path.insert(0, os.path.join(V.VERIF, "gen"))
@@ -57,7 +57,49 @@ def main():
                 for off in range(min(size, H2)):
                     for v in (0, 0x40, 0x80, 0xff) if tier == "quick" else (0, 0x3f, 0x40, 0x41, 0x7f, 0x80, 0x81, 0xfe, 0xff):
                         sweep.append((rng.randrange(1 << 30), "SW:%d=%d" % (off, v), f, "sweep-limit"))
-            stats["sweep_formats"] = len(reps); stats["sweep_inputs"] = len(sweep)
+            # effect-parameter sweep: in the body of each (unpacked) representative, bytes that follow a byte whose low nibble is e - in the
+            # many formats with Protracker-style cells, the parameter of effect e - are set to the parameter values at which effect
+            # handlers change behaviour (a zero nibble, 0, the largest values); played for 56 frames from the start, because a speed /
+            # tempo / loop effect acts on the rows after the one it sits on
+            nfx = 0
+            for fmt_name, (f, size) in sorted(reps.items()):
+                if os.path.getsize(f) != size: continue
+                body = open(f, "rb").read()
+                for e in range(16):
+                    cand = [i for i in range(max(64, min(size // 8, 1500)), min(size, max(8192, size // 3))) if (body[i - 1] & 15) == e and body[i] != 0]
+                    # the first two such places (the first rows of the first patterns are the ones playback reaches) and some anywhere
+                    for i in (cand[:2] + rng.sample(cand[2:], min(len(cand[2:]), 1 if tier == "quick" else 12))):
+                        for v in (0x00, 0x0f, 0xf0, 0x10, 0x30, 0xff):
+                            if v != body[i]: sweep.append((rng.randrange(1 << 30), "FX:%d=%d" % (i, v), f, "sweep-fx")); nfx += 1
+                # ... and effects INSTALLED in the first cells of the body: at 16 consecutive offsets (four cells at each alignment) the low
+                # nibble of the byte before is set to e and the byte itself to a parameter value
+                st0 = max(64, min(size // 8, 1500))
+                for i in range(st0 + 1, min(size, st0 + 17)):
+                    for e in range(16):
+                        for v in (0x00, 0xf0, 0x30, 0xff):
+                            sweep.append((rng.randrange(1 << 30), "FX:%d=%d,%d=%d" % (i - 1, (body[i - 1] & 0xf0) | e, i, v), f, "sweep-fx")); nfx += 1
+            # generated Protracker modules in which instruments are changed WITHOUT a note while a looped sample plays (the mixer swaps the
+            # sample at the loop end), the new instrument being empty, cut off by the end of the file, or fine
+            sys.path.insert(0, os.path.join(V.VERIF, "gen")); import modgen
+            for gi in range(24 if tier == "quick" else 400):
+                pat = modgen.empty_pattern(64, 4)
+                pat[0][0] = dict(note=rng.choice((13, 25, 30)), ins=1)
+                r = 1
+                while r < 12:
+                    c = rng.choice((0, 0, 0, 1))
+                    pat[r][c] = rng.choice((dict(ins=rng.choice((2, 3, 1, 2, 31))), dict(ins=2, fx=('raw', (9, rng.choice((0, 1, 255))))), dict(note=20, ins=rng.choice((2, 3))),
+                                            dict(ins=2, fx=('raw', (0xe, 0x90 | rng.randrange(16)))), dict(fx=('raw', (0xc, 0)))))
+                    r += rng.choice((1, 1, 2, 3))
+                song = dict(chn=4, orders=[0], patterns=[pat], speed=rng.choice((3, 6)), bpm=125, restart=0x7f, name="swap", loop=rng.choice(((0, 32), (0, 32), (4, 8), (0, 1))))
+                b = bytearray(modgen.write_mod(song))
+                # instrument 2: declared 30..200 bytes, volume 64, sometimes looped; its data: all there, partly there, not there at all
+                ln = rng.choice((15, 40, 100)); struct.pack_into(">HBBHH", b, 20 + 30 + 22, ln, 0, 64, 0, rng.choice((1, 1, ln)))
+                have = rng.choice((0, 0, 0, 2 * ln, ln, 3))
+                b += bytes(rng.randrange(256) for _ in range(have))
+                if rng.random() < 0.3: b = b[:len(b) - have - rng.choice((0, 1, 30, 63))]
+                gp = os.path.join(tmpd, "swap%04d.mod" % gi); open(gp, "wb").write(bytes(b))
+                sweep.append((rng.randrange(1 << 30), "FX:0+0", gp, "gen-instrument-swap"))
+            stats["sweep_formats"] = len(reps); stats["sweep_inputs"] = len(sweep); stats["sweep_fx_inputs"] = nfx
         chunks = [jobs[i::14] for i in range(14)] if len(jobs) > 14 else [jobs]
         schunks = [sweep[i::14] for i in range(14)] if sweep else []
 
